@@ -4,6 +4,7 @@ package objects
 
 import (
 	"bytes"
+	"time"
 
 	"github.com/wrgl/wrgl/pkg/zzverif"
 )
@@ -56,3 +57,99 @@ func Harness_C17_UintListRead() {
 	_, _, _ = NewUintListDecoder(false).Read(bytes.NewReader(b))
 	zzverif.Reach("end")
 }
+
+// ---- text-framed objects: commit, table, table profile -------------------------------
+//
+// Their encodings are long (labelled lines), so a short fully symbolic buffer only
+// reaches the first label check. Two kinds of input are used instead:
+//   - "prefix": a VALID encoding (written by the real encoder) cut at a position the
+//     explorer chooses, followed by K fully symbolic bytes (truncation + adversarial tail);
+//   - "flip": a valid encoding in which ONE byte at a position the explorer chooses is
+//     replaced by a symbolic byte (every value), optionally also truncated.
+
+func zz17Mutate(valid []byte) []byte {
+	mode := zzverif.Param("mode", 0)
+	k := zzverif.Param("K", 2)
+	switch mode {
+	case 0: // valid prefix + symbolic tail
+		cut := zzverif.Choose("cut", len(valid)+1)
+		b := append([]byte{}, valid[:cut]...)
+		return append(b, zzverif.Bytes("tail", k)...)
+	default: // one symbolic byte inside a valid encoding, optional truncation
+		pos := zzverif.Choose("pos", len(valid))
+		b := append([]byte{}, valid...)
+		b[pos] = zzverif.Byte("flip")
+		if zzverif.Bool("truncate") {
+			cut := zzverif.Choose("cut", len(valid)+1)
+			b = b[:cut]
+		}
+		return b
+	}
+}
+
+func zz17ValidCommit() []byte {
+	c := &Commit{
+		Table:       bytes.Repeat([]byte{0xab}, 16),
+		AuthorName:  "a",
+		AuthorEmail: "e",
+		Message:     "m",
+		Parents:     [][]byte{bytes.Repeat([]byte{0x01}, 16)},
+	}
+	c.Time = zz17Time()
+	buf := bytes.NewBuffer(nil)
+	if _, err := c.WriteTo(buf); err != nil {
+		panic(err)
+	}
+	return buf.Bytes()
+}
+
+func Harness_C17_ReadCommit() {
+	b := zz17Mutate(zz17ValidCommit())
+	_, _, _ = ReadCommitFrom(bytes.NewReader(b))
+	zzverif.Reach("end")
+}
+
+func zz17ValidTable() []byte {
+	t := &Table{
+		Columns:      []string{"a", "b"},
+		PK:           []uint32{0},
+		RowsCount:    256,
+		Blocks:       [][]byte{bytes.Repeat([]byte{0x11}, 16), bytes.Repeat([]byte{0x12}, 16)},
+		BlockIndices: [][]byte{bytes.Repeat([]byte{0x21}, 16), bytes.Repeat([]byte{0x22}, 16)},
+	}
+	buf := bytes.NewBuffer(nil)
+	if _, err := t.WriteTo(buf); err != nil {
+		panic(err)
+	}
+	return buf.Bytes()
+}
+
+func Harness_C17_ReadTable() {
+	b := zz17Mutate(zz17ValidTable())
+	_, _, _ = ReadTableFrom(bytes.NewReader(b))
+	zzverif.Reach("end")
+}
+
+func zz17ValidProfile() []byte {
+	one := 1.5
+	p := &TableProfile{
+		RowsCount: 2,
+		Columns: []*ColumnProfile{
+			{Name: "a", NACount: 1, Min: &one, MaxStrLen: 3, TopValues: ValueCounts{{Value: "x", Count: 2}}, Percentiles: []float64{1, 2}},
+		},
+	}
+	buf := bytes.NewBuffer(nil)
+	if _, err := p.WriteTo(buf); err != nil {
+		panic(err)
+	}
+	return buf.Bytes()
+}
+
+func Harness_C17_ReadProfile() {
+	b := zz17Mutate(zz17ValidProfile())
+	p := &TableProfile{}
+	_, _ = p.ReadFrom(bytes.NewReader(b))
+	zzverif.Reach("end")
+}
+
+func zz17Time() time.Time { return time.Unix(1600000000, 0).UTC() }
